@@ -242,10 +242,16 @@ class FusionART(BaseART):
 
         """
         skip_channels = [self.n + k if k < 0 else k for k in skip_channels]
+        supplied = [i for i in range(self.n) if i not in skip_channels]
+        if len(channel_data) == len(supplied):
+            # one array per supplied channel, as restore_data and
+            # split_channel_data return them
+            pairs = list(zip(supplied, channel_data))
+        else:
+            # one array per channel; the skipped entries are ignored
+            pairs = [(i, channel_data[i]) for i in supplied]
         prepared_channel_data = [
-            self.modules[i].prepare_data(channel_data[i])
-            for i in range(self.n)
-            if i not in skip_channels
+            self.modules[i].prepare_data(data_i) for i, data_i in pairs
         ]
 
         return self.join_channel_data(
